@@ -49,6 +49,7 @@ type checkCtx struct {
 	out        io.Writer // where verdict lines go (stdout; a buffer for self-test runs)
 	outRoot    string    // where query / replay files go (default <verif>/out)
 	noReplay   bool
+	harnessDone map[string]map[string]interface{}
 	selftest   map[string][]selftestResult
 	xcheck     map[string]int
 	audit      *auditResult
@@ -903,6 +904,17 @@ func (cc *checkCtx) writeReplay(prop string, rec *obRecord, outDir string) strin
 		rp = map[string]interface{}{"attempted": false, "reason": "self-test run"}
 	} else {
 		rp = cc.tryReplay(prop, rec)
+		if rp == nil || rp["reproduced"] != true {
+			if fb := cc.propertyFallback(prop); fb != nil {
+				if rp == nil {
+					rp = map[string]interface{}{}
+				}
+				rp["property_level_search"] = fb
+				if fb["reproduced"] == true {
+					rp["reproduced"] = true
+				}
+			}
+		}
 	}
 	doc["replay"] = rp
 	if rp != nil && rp["reproduced"] == true {
